@@ -138,12 +138,12 @@ class GaussianBackend(BaseGaussian):
         # phi is the rotation of the measurement operator, hence the minus
         self.circuit.phase_shift(-phi, mode)
 
+        eps = kwargs.get("eps", 0.0002)
         if select is None:
-            eps = kwargs.get("eps", 0.0002)
             qs = self.circuit.homodyne(mode, shots, eps)[0, 0]
         else:
             val = select * 2 / sqrt(2 * self.circuit.hbar)
-            qs = self.circuit.post_select_homodyne(mode, val, **kwargs)
+            qs = self.circuit.post_select_homodyne(mode, val, eps)
 
         # `qs` will always be a single value since multiple shots is not supported
         return array([[qs * sqrt(2 * self.circuit.hbar) / 2]])
